@@ -216,7 +216,7 @@ def replicaSyncOk (dpos rpos : Nat) : Nat := if rpos < dpos then dpos else rpos
 theorem no_silent_stall_partial (dpos rpos : Nat) (h : rpos ≤ dpos) : replicaSyncOk dpos rpos = dpos := by
   unfold replicaSyncOk; split <;> omega
 
-/-- **Finding F3** (recorded, not repaired): a run-time `ResetLocalState` sets the local
+/-- **Finding F3** (repaired in /repo by c352567; this keeps the arithmetic of the old behaviour): a run-time `ResetLocalState` set the local
     position to 0 without `checkDatabaseBehindReplica`; the next file is TXID 1, not above
     the replica, and `Replica.Sync` succeeds while the replica stays where it was. -/
 theorem f3_runtime_reset_breaks_both : ¬ (5 < 0 + 1) ∧ replicaSyncOk 1 5 ≠ 1 := by decide
